@@ -154,3 +154,46 @@ lemma(
     note='bounded(two resolving keys, two queries): real constructors, concrete identity addresses, all IRKs and all pairs of addresses; '
     'the general statement (any number of keys) is the contract on AddressResolver.resolve',
 )
+
+
+# ---------------------------------------------------------------------------
+# BOUNDED stand-in (never counted as proved) for the two trusted text contracts above: seeded native run of the
+# real Address.to_string / Address.__init__ against the native meaning of the tagged text 'bd_addr'
+# ---------------------------------------------------------------------------
+def address_text_round_trip(top, out, tier, seed):
+    n = 200 if tier == 'quick' else 20000
+    rnd = random.Random(2000 + seed)
+    bad = []
+    types = [hci.Address.PUBLIC_DEVICE_ADDRESS, hci.Address.RANDOM_DEVICE_ADDRESS, hci.Address.PUBLIC_IDENTITY_ADDRESS, hci.Address.RANDOM_IDENTITY_ADDRESS]
+    for i in range(n):
+        b = bytes(rnd.randrange(256) for _ in range(6)) if i >= 4 else [bytes(6), b'\xff' * 6, bytes(range(6)), b'\x0a\x00\xa0\x0f\xf0\x00'][i]
+        for t in types:
+            a = hci.Address(b, t)
+            for q in (True, False):
+                text = a.to_string(q)
+                if text != _bd_addr_format(b, q and addr_is_public(a)) or _bd_addr_parse(text) != (b, q and addr_is_public(a)):
+                    bad.append(('to_string', b.hex(), int(t), q, text))
+            for t2 in types:
+                back = hci.Address(str(a), t2)
+                if back.address_bytes != b or int(back.address_type) != (0 if addr_is_public(a) else int(t2)):
+                    bad.append(('Address(str(a), t2)', b.hex(), int(t), int(t2), repr(back)))
+    out['kind'] = 'bounded'
+    out['paths'] = 0
+    out['sha'] = ''
+    out['bounded'] = [
+        {
+            'what': 'native run of Address.to_string / str / Address(text, type) against the trusted text contracts of contracts/c14_more.py '
+            '(format XX:XX:XX:XX:XX:XX[/P]; Address(str(a), t) has the bytes of a, type PUBLIC_DEVICE for a public a, else t)',
+            'bound': f'{n} seeded random 6-byte addresses x 4 address types x 4 requested types (seed {2000 + seed})',
+            'disagreements': [repr(b_)[:300] for b_ in bad[:5]],
+        }
+    ]
+    out['names']['C14/address_text_round_trip/bounded-agreement'] = {
+        'kind': 'bounded', 'n': 1, 'proved': 0 if bad else 1, 'refuted': 1 if bad else 0, 'unknown': 0, 'vacuous': 0, 'disagree': 0,
+        'time': 0.0, 'max_time': 0.0, 'backends': {'native-differential': 1}, 'abstracted': False, 'expect_sat': False, 'loc': 'address_text_round_trip',
+        'details': [], 'witnesses': [{'loc': 'address_text_round_trip', 'decisions': [], 'info': {}, 'solver': 'native', 'detail': repr(bad[:3])[:600], 'replay': {'outcome': 'violated', 'confirms': True, 'failed': [repr(bad[:3])[:600]]}}] if bad else [],
+    }
+    return out
+
+
+lemma('address_text_round_trip', lambda: None, prop='C14', params={}, custom=address_text_round_trip, note='BOUNDED stand-in: seeded native run of the address text round trip (see `bounded` in the evidence); never counted as proved')
